@@ -13,6 +13,7 @@ import (
 	retry "github.com/avast/retry-go"
 	"github.com/ovrclk/akash/provider/session"
 	"github.com/ovrclk/akash/pubsub"
+	"github.com/ovrclk/akash/util/veriftrace"
 	mtypes "github.com/ovrclk/akash/x/market/types"
 	"github.com/tendermint/tendermint/libs/log"
 	"sync"
@@ -119,8 +120,10 @@ func (dm *deploymentManager) run() {
 	var shutdownErr error
 loop:
 	for {
+		veriftrace.Emit("cluster-manager", dm.lease.String(), "loop", "state", string(dm.state), "runch", runch != nil, "mgroup", dm.mgroup)
 		select {
 		case err := <-reserveHostnamesCh:
+			veriftrace.Emit("cluster-manager", dm.lease.String(), "recv-hostnames", "err", err != nil)
 			reserveHostnamesCh = nil
 			if err != nil {
 				deploymentCounter.WithLabelValues("reserve-hostnames", "err").Inc()
@@ -132,9 +135,11 @@ loop:
 			runch = dm.startDeploy()
 
 		case shutdownErr = <-dm.lc.ShutdownRequest():
+			veriftrace.Emit("cluster-manager", dm.lease.String(), "recv-shutdown")
 			break loop
 
 		case mgroup := <-dm.updatech:
+			veriftrace.Emit("cluster-manager", dm.lease.String(), "recv-update", "mgroup", mgroup)
 			dm.mgroup = mgroup
 
 			switch dm.state {
@@ -152,6 +157,7 @@ loop:
 			}
 
 		case result := <-runch:
+			veriftrace.Emit("cluster-manager", dm.lease.String(), "recv-result", "err", result != nil)
 			runch = nil
 			if result != nil {
 				dm.log.Error("execution error", "state", dm.state, "err", result)
@@ -185,6 +191,7 @@ loop:
 			}
 
 		case <-dm.teardownch:
+			veriftrace.Emit("cluster-manager", dm.lease.String(), "recv-teardown")
 			dm.log.Debug("teardown request")
 			dm.stopMonitor()
 			switch dm.state {
@@ -199,6 +206,7 @@ loop:
 			}
 		}
 	}
+	veriftrace.Emit("cluster-manager", dm.lease.String(), "exit", "state", string(dm.state), "runch", runch != nil)
 	dm.lc.ShutdownInitiated(shutdownErr)
 
 	if runch != nil {
@@ -214,6 +222,7 @@ loop:
 		dm.withdrawal.lc.Shutdown(nil)
 	}
 	dm.log.Info("shutdown complete")
+	veriftrace.Emit("cluster-manager", dm.lease.String(), "stopped")
 }
 
 func (dm *deploymentManager) startWithdrawal() {
@@ -243,12 +252,14 @@ func (dm *deploymentManager) stopMonitor() {
 }
 
 func (dm *deploymentManager) startDeploy() <-chan error {
+	veriftrace.Emit("cluster-manager", dm.lease.String(), "issue-deploy", "mgroup", dm.mgroup)
 	dm.stopMonitor()
 	dm.state = dsDeployActive
 	return dm.do(dm.doDeploy)
 }
 
 func (dm *deploymentManager) startTeardown() <-chan error {
+	veriftrace.Emit("cluster-manager", dm.lease.String(), "issue-teardown")
 	dm.stopMonitor()
 	dm.state = dsTeardownActive
 	return dm.do(dm.doTeardown)
